@@ -67,6 +67,7 @@ fn run_case(case: &Case, ev: &Evidence) -> CaseResult {
     let mut model: BTreeMap<usize, BTreeMap<(usize, bool), RatchetModel>> = BTreeMap::new();
     let mut delivered: BTreeMap<usize, BTreeSet<usize>> = BTreeMap::new();
     let (mut out_of_order, mut duplicates, mut reloads, mut big_gaps, mut beyond_window) = (0u64, 0u64, 0u64, 0u64, 0u64);
+    let mut detached = 0u64;
     let mut senders_used = BTreeSet::new();
     let mut both_ratchets = BTreeSet::new();
 
@@ -139,7 +140,27 @@ fn run_case(case: &Case, ev: &Evidence) -> CaseResult {
     };
 
     for op in &case.ops {
-        match pick_weighted(op[0], &[30, 40, 8, 6, 8]) {
+        match pick_weighted(op[0], &[30, 40, 8, 6, 8, 4]) {
+            5 => {
+                // the sender builds a detached commit and throws it away (the application decided otherwise): the handshake
+                // generation it was sealed with is spent, the next handshake message must use another one
+                let s = members[pick(op[1], members.len().min(1 + (case.c(5) % 4) as usize))];
+                let t = w.now();
+                let party = &mut w.parties[s];
+                party.gm().clear_proposal_cache();
+                if party.g().has_pending_commit() {
+                    continue;
+                }
+                match guard(|| party.gm().commit_builder().commit_time(t).build_detached()) {
+                    Ok(_) => {
+                        *send_gen.entry((s, true)).or_insert(0) += 1;
+                        both_ratchets.insert((s, true));
+                        detached += 1;
+                    }
+                    Err(e) if e.is_panic() => return Err(panic_failure(P, "build_detached", &e)),
+                    Err(e) => return Err(setup_failure(P, "build_detached", &e)),
+                }
+            }
             0 => {
                 // send (after discarding `gap` messages of the same ratchet)
                 let s = members[pick(op[1], members.len().min(1 + (case.c(5) % 4) as usize))];
@@ -239,10 +260,19 @@ fn run_case(case: &Case, ev: &Evidence) -> CaseResult {
     let mut app_keys: BTreeSet<Vec<u8>> = BTreeSet::new();
     let mut hs_keys: BTreeSet<Vec<u8>> = BTreeSet::new();
     let mut seals = 0u64;
+    // every message key is used for one encryption only (the reuse guard protects copies of a sender, it is no licence to
+    // seal twice with one generation): no AEAD key occurs in two seals
+    let mut seen_keys: HashMap<Vec<u8>, usize> = HashMap::new();
     for p in &w.parties {
         let (_, aead) = p.crypto.log.stop();
         for rec in aead {
             seals += 1;
+            if let Some(prev) = seen_keys.insert(rec.key.clone(), p.id) {
+                return Err(fail(
+                    "aead_key_used_for_two_messages",
+                    format!("parties {prev} and {} sealed two messages with the same AEAD key {}.. (nonces differ: a ratchet generation was used twice); detached commits built and discarded in this case: {detached}", p.id, hex::encode(&rec.key[..4])),
+                ));
+            }
             if let Some(prev) = seen.insert((rec.key.clone(), rec.nonce.clone()), p.id) {
                 return Err(fail(
                     "aead_key_nonce_reused",
@@ -304,10 +334,37 @@ fn run_case(case: &Case, ev: &Evidence) -> CaseResult {
         for m in &members {
             w.parties[*m].gm().clear_proposal_cache();
         }
-        let committer = committers[pick(case.c(6), committers.len())];
-        match w.commit_round(committer, &CommitSpec::default())? {
+        // half of the time the receiver itself commits, and takes some of the messages while its commit is pending: what it
+        // consumed then stays consumed in the record of the epoch it leaves
+        let committer = if committers.contains(&r) && case.c(7) % 2 == 1 { r } else { committers[pick(case.c(6), committers.len())] };
+        let mut early: BTreeSet<usize> = BTreeSet::new();
+        let n_early = if committer == r { (late.len() + 1) / 2 } else { 0 };
+        let late_ref = &late;
+        let early_ref = &mut early;
+        let mut hook = |w: &mut World, st: Stage| -> CaseResult {
+            if let Stage::AfterBuild { committer } = st {
+                for (i, (s, leaf, bytes, payload)) in late_ref.iter().enumerate().take(n_early) {
+                    match w.process(committer, bytes) {
+                        Err(e) if e.is_panic() => return Err(panic_failure(P, "process_incoming_message(while a commit is pending)", &e)),
+                        Err(e) => return Err(fail(&format!("fresh_message_rejected_while_commit_pending|{}", e.class()), format!("receiver {committer}: message of sender {s}: {}", e.text()))),
+                        Ok(ReceivedMessage::ApplicationMessage(d)) => {
+                            if d.sender_index != *leaf || d.data() != &payload[..] {
+                                return Err(fail("decrypted_message_misreported", format!("receiver {committer}: message of sender {s} taken while a commit is pending")));
+                            }
+                            early_ref.insert(i);
+                        }
+                        Ok(o) => return Err(fail("message_wrong_kind", format!("{o:?}").chars().take(100).collect())),
+                    }
+                }
+            }
+            Ok(())
+        };
+        match w.commit_round_with(committer, &CommitSpec::default(), &mut hook)? {
             Ok(_) => {}
             Err(e) => return Err(setup_failure(P, "commit_between_phases", &e)),
+        }
+        if !early.is_empty() {
+            ev.class_n("messages_taken_while_own_commit_pending", early.len() as u64);
         }
         if case.c(7) % 3 == 0 {
             w.save(r).map_err(|e| setup_failure(P, "write_to_storage", &e))?;
@@ -317,6 +374,7 @@ fn run_case(case: &Case, ev: &Evidence) -> CaseResult {
             for i in permutation(late.len(), case.c(5) as u64 + round) {
                 let (s, leaf, bytes, payload) = &late[i];
                 let res = w.process(r, bytes);
+                let round = if early.contains(&i) { round + 1 } else { round };
                 match (round, res) {
                     (_, Err(e)) if e.is_panic() => return Err(panic_failure(P, "process_incoming_message(late message)", &e)),
                     (0, Ok(ReceivedMessage::ApplicationMessage(d))) => {
@@ -335,7 +393,7 @@ fn run_case(case: &Case, ev: &Evidence) -> CaseResult {
                     (_, Ok(_)) => {
                         return Err(fail(
                             "replay_accepted|late_message_of_previous_epoch",
-                            format!("receiver {r} accepted a message of sender {s} from the previous epoch a second time (round {round}{})", if round == 2 { ", after write + reload" } else { "" }),
+                            format!("receiver {r} accepted a message of sender {s} from the previous epoch a second time (delivery {}{}{})", round + 1, if round >= 2 { ", after write + reload" } else { "" }, if early.contains(&i) { ", first taken while its own commit was pending" } else { "" }),
                         ))
                     }
                     (_, Err(_)) => late_dup += 1,
@@ -347,6 +405,7 @@ fn run_case(case: &Case, ev: &Evidence) -> CaseResult {
             }
         }
     }
+    ev.class_n("detached_commits_built_and_discarded", detached);
     ev.class_n("late_messages_of_previous_epoch_accepted_once", late_ok);
     ev.class_n("late_message_replays_rejected", late_dup);
     ev.class_n("aead_seals_checked_for_uniqueness", seals);
@@ -428,7 +487,7 @@ pub fn run(ctx: &Ctx) -> ! {
          exactly-once model per (receiver, sender, ratchet): {consumed generations, ratchet position}; a delivery must succeed iff its generation is unconsumed and at most 1024 ahead, yielding \
          the original payload and sender; a consumed generation must be rejected; beyond the window only no-panic is demanded; at the end every message has been accepted exactly once by every \
          receiver. Recorder oracle: all (key, nonce) pairs of all AEAD encryptions of all members are pairwise distinct; keys used for application content and handshake content are disjoint. \
-         Clone check: two copies of a sender encrypting the same generation use different nonces (provider randomness seeded). Non-trivial = schedule with >= 1 out-of-order delivery and >= 1 duplicate.",
+         Senders also build detached commits and discard them: no AEAD key may occur in two seals. In phase 2 the receiver is often the committer and takes half of the late messages while its commit is pending. Clone check: two copies of a sender encrypting the same generation use different nonces (provider randomness seeded). Non-trivial = schedule with >= 1 out-of-order delivery and >= 1 duplicate.",
     );
     ev.assume("state rollback (reloading an older snapshot after having sent) is the application's fault and is not modelled: reloads always follow a write");
     let run = |c: &Case| run_case(c, &ev);
